@@ -68,7 +68,7 @@ IdxRecs == { [name |-> n, parts |-> p, unique |-> u, where |-> w] : n \in In, p 
 AddIndexS(S)   == UNION { { With(S, t, [S[t] EXCEPT !.idx = @ \cup {x}]) : x \in IdxRecs } : t \in Present(S) }
 DropIndexS(S)  == UNION { { With(S, t, [S[t] EXCEPT !.idx = @ \ {x}]) : x \in S[t].idx } : t \in Present(S) }
 ModIndexS(S)   == UNION { UNION { { With(S, t, [S[t] EXCEPT !.idx = (@ \ {x}) \cup {y}]) : y \in {z \in IdxRecs : z.name = x.name /\ z # x} } : x \in S[t].idx } : t \in Present(S) }
-SetPKS(S)      == UNION { { With(S, t, [S[t] EXCEPT !.pk = p, !.autoinc = ai]) : p \in Seqs(Cn, 2), ai \in BOOLEAN } : t \in Present(S) }
+SetPKS(S)      == UNION { { With(S, t, [S[t] EXCEPT !.pk = p, !.autoinc = ai]) : p \in Seqs(Cn, 3), ai \in BOOLEAN } : t \in Present(S) }
 FkRecs == { [name |-> "f1", col |-> c, ref |-> r, refcol |-> rc, onupd |-> u, ondel |-> a] : c \in Cn, r \in Tn, rc \in {"a"}, u \in {"NO ACTION", "CASCADE"}, a \in Acts }
 AddFKS(S)      == UNION { { With(S, t, [S[t] EXCEPT !.fks = @ \cup {g}]) : g \in {h \in FkRecs : S[t].fks = {}} } : t \in Present(S) }
 DropFKS(S)     == UNION { { With(S, t, [S[t] EXCEPT !.fks = @ \ {g}]) : g \in S[t].fks } : t \in Present(S) }
